@@ -1,7 +1,7 @@
 // Native bounded stand-in for the authentication decision of C19 (rumqttd/src/link/remote.rs: handle_auth, a
 // private async fn — outside Verus (async, closures) and Kani (no async runtime)).  Exhaustive over every
-// combination of: static credentials {none, containing u/p, not containing u} x external callback {none,
-// accepts, rejects} x login {absent, right password, wrong password, unknown user}.
+// combination of: static credentials {none, containing u/p, not containing u, u/p plus an account with an empty password} x external
+// callback {none, accepts, rejects} x 12 logins (absent, right, wrong, unknown user, empty password, empty user, ...).
 // Oracle from the property: a session is admitted iff no authentication is configured, or the login is present
 // and the configuration accepts it (the external callback decides when configured, otherwise the static table).
 
@@ -13,18 +13,23 @@ fn authentication_decision_matches_the_configuration() {
     let rt = tokio::runtime::Builder::new_current_thread().build().unwrap();
     let mut cases = 0;
     let mut fail: Option<String> = None;
-    'outer: for stat in 0..3 {
+    let logins: Vec<Option<(&str, &str)>> = vec![None, Some(("u", "p")), Some(("u", "wrong")), Some(("nobody", "p")), Some(("nobody", "")), Some(("u", "")), Some(("", "")),
+        Some(("u", "pp")), Some(("U", "p")), Some(("e", "")), Some(("e", "p")), Some(("", "p"))];
+    'outer: for stat in 0..4 {
         for ext in 0..3 {
-            for login_kind in 0..4 {
+            for login in logins.iter() {
                 cases += 1;
                 let mut cfg = crate::ConnectionSettings { connection_timeout_ms: 0, max_payload_size: 0, max_inflight_count: 0, auth: None, external_auth: None, dynamic_filters: false };
+                let mut table: Option<HashMap<String, String>> = None;
                 if stat > 0 {
                     let mut m = HashMap::new();
-                    if stat == 1 {
-                        m.insert("u".to_owned(), "p".to_owned());
-                    } else {
-                        m.insert("someone-else".to_owned(), "p".to_owned());
+                    match stat {
+                        1 => { m.insert("u".to_owned(), "p".to_owned()); }
+                        2 => { m.insert("someone-else".to_owned(), "p".to_owned()); }
+                        // an account whose configured password is empty is an account like any other
+                        _ => { m.insert("u".to_owned(), "p".to_owned()); m.insert("e".to_owned(), "".to_owned()); }
                     }
+                    table = Some(m.clone());
                     cfg.auth = Some(m);
                 }
                 if ext == 1 {
@@ -32,32 +37,27 @@ fn authentication_decision_matches_the_configuration() {
                 } else if ext == 2 {
                     cfg.set_auth_handler(|_c, _u, _p| async move { false });
                 }
-                let login = match login_kind {
-                    0 => None,
-                    1 => Some(crate::protocol::Login { username: "u".into(), password: "p".into() }),
-                    2 => Some(crate::protocol::Login { username: "u".into(), password: "wrong".into() }),
-                    _ => Some(crate::protocol::Login { username: "nobody".into(), password: "p".into() }),
-                };
-                let right = login_kind == 1;
+                let l = login.map(|(u, p)| crate::protocol::Login { username: u.into(), password: p.into() });
+                // the property: no authentication configured -> admitted; otherwise a login must be present and the
+                // configuration must accept it (the callback decides when configured, otherwise the static table)
                 let expected = if stat == 0 && ext == 0 {
                     true
-                } else if login.is_none() {
-                    false
-                } else if ext != 0 {
-                    ext == 1 && right
                 } else {
-                    stat == 1 && right
+                    match login {
+                        None => false,
+                        Some((u, p)) => if ext != 0 { ext == 1 && *u == "u" && *p == "p" } else { table.as_ref().unwrap().get(*u).map(|x| x.as_str()) == Some(*p) },
+                    }
                 };
-                let got = rt.block_on(handle_auth(std::sync::Arc::new(cfg), login.as_ref(), "cid")).is_ok();
+                let got = rt.block_on(handle_auth(std::sync::Arc::new(cfg), l.as_ref(), "cid")).is_ok();
                 if got != expected {
-                    fail = Some(format!("input=[static credentials kind {}, external callback kind {}, login kind {}] detail=[admitted = {}, the configuration says {}]", stat, ext, login_kind, got, expected));
+                    fail = Some(format!("input=[static credentials kind {} (0 none, 1 u:p, 2 someone-else:p, 3 u:p + e:<empty>), external callback kind {} (0 none, 1 accepts u:p, 2 rejects all), login {:?}] detail=[admitted = {}, the configuration says {}]", stat, ext, login, got, expected));
                     break 'outer;
                 }
             }
         }
     }
     match fail {
-        None => println!("VERIF-OBLIGATION {} props=C19 bound=\"3 static-credential shapes x 3 callback shapes x 4 logins (exhaustive)\" cases={} ok", name, cases),
+        None => println!("VERIF-OBLIGATION {} props=C19 bound=\"4 static-credential shapes x 3 callback shapes x 12 logins (absent, right, wrong, unknown user, empty password / user, longer password, other case, account with empty password)\" cases={} ok", name, cases),
         Some(f) => {
             println!("VERIF-FAIL {} props=C19 {}", name, f);
             panic!("{}", f);
